@@ -87,23 +87,28 @@ def generate(repo):
         ka += 1
     arm = norm(body[ja + 1:ka])
     ma = re.fullmatch(r'if \(!attr\) error_tok\(tok, "_Alignas is not allowed in this context"\); tok = skip\(tok->next, "\("\); '
-                      r'if \(is_typename\(tok\)\) attr->align = typename\(&tok, tok\)->(\w+); '
-                      r'else attr->align = const_expr\(&tok, tok\); tok = skip\(tok, "\)"\); continue;', arm)
+                      r'int align; if \(is_typename\(tok\)\) align = typename\(&tok, tok\)->(\w+); '
+                      r'else align = const_expr\(&tok, tok\); attr->align = MAX\(attr->align, align\); '
+                      r'tok = skip\(tok, "\)"\); continue;', arm)
     if not ma:
         raise ExtractError('declspec: the _Alignas arm has a shape the translator does not understand: ' + arm)
     alignas_field = ma.group(1)
-    if alignas_field not in ('align', 'size'):
-        raise ExtractError(f'declspec: _Alignas(type-name) reads ->{alignas_field} of the operand type')
+    if alignas_field != 'align':
+        raise ExtractError(f'declspec: _Alignas(type-name) reads ->{alignas_field} of the operand type (C11 6.7.5p6: its alignment)')
+    hdr = strip_comments(read(repo, 'chibicc.h'))
+    mm = must(r'#\s*define\s+MAX\s*\(\s*x\s*,\s*y\s*\)\s*(.+)', hdr, '#define MAX(x, y) in chibicc.h')
+    if norm(mm.group(1)) != '((x) < (y) ? (y) : (x))':
+        raise ExtractError('chibicc.h: MAX has an unknown shape: ' + mm.group(1))
     # struct_members: mem->align = attr.align ? attr.align : mem->ty->align;   (anonymous member and regular member)
     assigns = re.findall(r'mem->align\s*=\s*([^;]+);', parse)
     if [norm(a) for a in assigns] != ['attr.align ? attr.align : mem->ty->align'] * 2:
         raise ExtractError('parse.c: expected exactly two `mem->align = attr.align ? attr.align : mem->ty->align;`, found: ' + repr(assigns))
-    # variables: var->align = ty->align (new_var) overridden by attr->align in declaration() and global_variable()
+    # variables: var->align = ty->align (new_var) overridden by attr->align in declaration() (block-scope static and automatic) and global_variable()
     vassigns = [norm(a) for a in re.findall(r'var->align\s*=\s*([^;]+);', parse)]
-    if sorted(vassigns) != ['attr->align', 'attr->align', 'ty->align']:
+    if sorted(vassigns) != ['attr->align', 'attr->align', 'attr->align', 'ty->align']:
         raise ExtractError('parse.c: assignments to var->align changed: ' + repr(vassigns))
     if len(re.findall(r'if \(attr && attr->align\)\s*var->align = attr->align;', parse)) != 1 or \
-       len(re.findall(r'if \(attr->align\)\s*var->align = attr->align;', parse)) != 1:
+       len(re.findall(r'if \(attr->align\)\s*var->align = attr->align;', parse)) != 2:
         raise ExtractError('parse.c: the guards of `var->align = attr->align` changed')
     # attribute_list: aligned(N) -> ty->align = const_expr
     if len(re.findall(r'if \(consume\(&tok, tok, "aligned"\)\) \{ tok = skip\(tok, "\("\); ty->align = const_expr\(&tok, tok\); tok = skip\(tok, "\)"\); continue; \}', norm(parse))) != 1:
@@ -262,6 +267,8 @@ def generate(repo):
     o += 'def arrayOf (baseSize baseAlign len : Nat) : Nat × Nat := (baseSize * len, baseAlign)\n\n'
     o += '/-- declspec, `_Alignas(type-name)`: attr->align = typename(&tok, tok)->%s  (arguments: size and align of the operand type) -/\n' % alignas_field
     o += 'def alignasOfType (tySize tyAlign : Int) : Int := %s\n\n' % ('tyAlign' if alignas_field == 'align' else 'tySize')
+    o += '/-- declspec, several specifiers: attr->align = MAX(attr->align, align), chibicc.h `#define MAX(x, y) ((x) < (y) ? (y) : (x))` -/\n'
+    o += 'def alignasCombine (cur new : Int) : Int := if cur < new then new else cur\n\n'
     o += '/-- declspec, `_Alignas(constant-expression)`: attr->align = const_expr(&tok, tok) -/\n'
     o += 'def alignasOfConst (v : Int) : Int := v\n\n'
     o += '/-- struct_members (both sites): mem->align = attr.align ? attr.align : mem->ty->align -/\n'
